@@ -236,9 +236,10 @@ func dedupInts(a []int) []int {
 func init() {
 	register(&Property{
 		ID:    "C18",
-		Rule:  "k in 0..5 valid documents (own and foreign producers; JSON whitespace-separated incl. top-level scalars) x {NewBytesDecoder, NewDecoder(reader)} x reader schedules (read sizes from the chunk generator, boundaries aimed at document boundaries, data returned with or before io.EOF) x buffer sizes 1..4096 x optional truncation inside the last value; oracle = Next #i succeeds with exactly the events of document i (one-shot Parse), Next #k+1 = io.EOF with no events, a truncated last value ends in an error other than io.EOF; non-trivial = k>=2, or a read boundary inside a token / on a document boundary, or a truncated stream; distinct by case hash",
+		Rule:  "k in 0..5 valid documents (own and foreign producers; JSON whitespace-separated incl. top-level scalars) x {NewBytesDecoder, NewDecoder(reader)} x reader schedules (read sizes from the chunk generator, boundaries aimed at document boundaries, data returned with or before io.EOF) x buffer sizes 1..4096 x optional truncation inside the last value; oracle = Next #i succeeds with exactly the events of document i (one-shot Parse), Next #k+1 = io.EOF with no events, a truncated last value ends in an error other than io.EOF; deterministic part: 9 small streams x every single read boundary x buffer sizes {1,2,3,64} x {data with EOF, data before EOF} and every truncation position of the last document; non-trivial = k>=2, or a read boundary inside a token / on a document boundary, or a truncated stream; distinct by case hash",
 		New:   func() any { return &C18Case{} },
 		Draw:  drawC18,
 		Check: checkC18,
+		Enum:  enumC18,
 	})
 }
